@@ -140,6 +140,7 @@ class Rvalue:
             self.ops = [Operand(raw[2])]
         elif op == "discr":
             self.place = Place(raw[1])
+            self.extra = raw[2] if len(raw) > 2 else None
         elif op == "agg":
             self.a = raw[1]
             self.ops = [Operand(x) for x in raw[2]]
